@@ -229,6 +229,25 @@ def gen_history(rnd, nops, geo, strkind=None, ops_weights=None, obs_every=1, nul
     def strk():
         return strkind if strkind else rnd.choice(STR_COPY_KINDS)
 
+    def pick(U, kind=None):
+        """a usable reference, preferably one that designates a container of the wanted kind"""
+        if kind and rnd.random() < 0.75:
+            c = [i for i in U if refs[i][0] is not None and refs[i][0].alive and refs[i][0].kind in kind and (refs[i][0].items or rnd.random() < 0.3)]
+            if c:
+                return rnd.choice(c)
+        return rnd.choice(U)
+
+    def pick_key(n):
+        if n is not None and n.kind == "O" and n.items and rnd.random() < 0.75:
+            ks = [k for k, _ in n.items]
+            return ks[-1] if rnd.random() < 0.4 else rnd.choice(ks)
+        return rnd.choice(KEYS)
+
+    def pick_index(n):
+        if n is not None and n.kind == "A" and n.items and rnd.random() < 0.8:
+            return rnd.choice([len(n.items) - 1, 0, rnd.randrange(len(n.items))])
+        return rnd.choice([0, 1, 2, 5])
+
     def randval(dst_node):
         k = rnd.choice(["null", "bool", "i", "u", "i8", "u16", "f", "d", "d", "sl", "sc", "sc", "sc", "raw", "ref", "ref", "doc", "sjl"])
         if k == "null":
@@ -267,7 +286,7 @@ def gen_history(rnd, nops, geo, strkind=None, ops_weights=None, obs_every=1, nul
             return k, str(rnd.choice(cands))
     void_kinds = ("null", "sl", "sc", "sv", "sp", "sj", "sjl", "raw", "ref", "doc")
     choices = ops_weights or ["root", "root", "mem", "memw", "elem", "elemw", "set", "set", "setm", "setm", "sete", "add", "add", "addv", "toarr", "toobj", "remi", "remk",
-                              "clear", "cleardoc", "copydoc", "swapdoc", "shrink"]
+                              "remi", "remk", "setm", "add", "memw", "elemw", "clear", "cleardoc", "copydoc", "swapdoc", "shrink"]
     count = 0
     for _ in range(nops):
         op = rnd.choice(choices)
@@ -276,7 +295,7 @@ def gen_history(rnd, nops, geo, strkind=None, ops_weights=None, obs_every=1, nul
         if op == "root":
             d = rnd.randrange(3); refs[r] = (docs[d].root, docs[d]); emit("root %d %d" % (r, d), "")
         elif op in ("mem", "memw") and U:
-            r2 = rnd.choice(U); key = rnd.choice(KEYS); n2, d2 = refs[r2]
+            r2 = pick(U, "ON"); n2, d2 = refs[r2]; key = pick_key(n2) if rnd.random() < 0.6 else rnd.choice(KEYS)
             if op == "mem":
                 refs[r] = (getmember(n2, key), d2)
             else:
@@ -286,7 +305,7 @@ def gen_history(rnd, nops, geo, strkind=None, ops_weights=None, obs_every=1, nul
                 refs[r] = (m, d2)
             emit("%s %d %d %s" % (op, r, r2, key.hex() or "-"), "")
         elif op in ("elem", "elemw") and U:
-            r2 = rnd.choice(U); i = rnd.choice([0, 0, 1, 2, 4]); n2, d2 = refs[r2]
+            r2 = pick(U, "AN"); n2, d2 = refs[r2]; i = pick_index(n2) if rnd.random() < 0.6 else rnd.choice([0, 0, 1, 2, 4])
             if op == "elem":
                 refs[r] = ((n2.items[i] if (n2 is not None and n2.kind == "A" and i < len(n2.items)) else None), d2)
             else:
@@ -303,7 +322,7 @@ def gen_history(rnd, nops, geo, strkind=None, ops_weights=None, obs_every=1, nul
                 res = setval(n, k, a, refs, docs)
             emit("set %d %s %s" % (r, k, a), "1" if res else "0")
         elif op == "setm" and U:
-            r = rnd.choice(U); n, d = refs[r]; key = rnd.choice(KEYS)
+            r = pick(U, "ON"); n, d = refs[r]; key = rnd.choice(KEYS)
             k, a = rnd.choice([("null", "-"), ("i", "42"), ("sc", "7a7a"), ("sl", "1"), ("d", "3fb999999999999a")])
             m = getoradd_member(n, key)
             if m is None:
@@ -312,7 +331,7 @@ def gen_history(rnd, nops, geo, strkind=None, ops_weights=None, obs_every=1, nul
                 res = setval(m, k, a, refs, docs)
             emit("setm %d %s %s %s" % (r, key.hex() or "-", k, a), "1" if res else "0")
         elif op == "sete" and U:
-            r = rnd.choice(U); n, d = refs[r]; i = rnd.choice([0, 1, 3])
+            r = pick(U, "AN"); n, d = refs[r]; i = rnd.choice([0, 1, 3])
             k, a = rnd.choice([("null", "-"), ("i", "-7"), ("sc", "7171")])
             m = getoradd_elem(n, i)
             if m is None:
@@ -321,7 +340,7 @@ def gen_history(rnd, nops, geo, strkind=None, ops_weights=None, obs_every=1, nul
                 res = setval(m, k, a, refs, docs)
             emit("sete %d %d %s %s" % (r, i, k, a), "1" if res else "0")
         elif op == "add" and U:
-            r = rnd.choice(U); n, d = refs[r]; k, a = randval(n)
+            r = pick(U, "AN"); n, d = refs[r]; k, a = randval(n)
             if n is None:
                 res = False
             else:
@@ -333,7 +352,7 @@ def gen_history(rnd, nops, geo, strkind=None, ops_weights=None, obs_every=1, nul
                     c = Node(n.doc); setval(c, k, a, refs, docs); n.items.append(c); res = True
             emit("add %d %s %s" % (r, k, a), "1" if res else "0")
         elif op == "addv" and U:
-            r2 = rnd.choice(U); n2, d2 = refs[r2]
+            r2 = pick(U, "AN"); n2, d2 = refs[r2]
             if n2 is None:
                 refs[r] = (None, d2)
             else:
@@ -350,12 +369,12 @@ def gen_history(rnd, nops, geo, strkind=None, ops_weights=None, obs_every=1, nul
                 clear(n2); n2.kind = "A" if op == "toarr" else "O"; n2.items = []
             refs[r] = (n2, d2); emit("%s %d %d" % (op, r, r2), "")
         elif op == "remi" and U:
-            r = rnd.choice(U); n, d = refs[r]; i = rnd.choice([0, 1, 2, 5])
+            r = pick(U, "A"); n, d = refs[r]; i = pick_index(n)
             if n is not None and n.kind == "A" and i < len(n.items):
                 c = n.items.pop(i); c.alive = False; kill(c)
             emit("remi %d %d" % (r, i), "")
         elif op == "remk" and U:
-            r = rnd.choice(U); n, d = refs[r]; key = rnd.choice(KEYS)
+            r = pick(U, "O"); n, d = refs[r]; key = pick_key(n)
             if n is not None and n.kind == "O":
                 for j, (k, v) in enumerate(n.items):
                     if k == key:
@@ -403,7 +422,8 @@ def gen_history(rnd, nops, geo, strkind=None, ops_weights=None, obs_every=1, nul
 
 
 # ------------------------------------------------------------------------------------------------ histories under allocation failure
-import subprocess
+import subprocess, re
+import gens
 
 
 class ModelSession:
@@ -439,6 +459,24 @@ def gen_fault_history(rnd, nops, geo, sess):
     arm_at = rnd.randrange(2, max(3, nops // 2))
     disarm_at = arm_at + rnd.choice([2, 5, 10, 25])
     mode = rnd.choice(["single", "single", "from", "multi"])
+    trees = {}          # last observed tree of each reference (from the model's obs output)
+
+    def kkey(r):
+        t = trees.get(r)
+        if t and t[0] == "O" and t[1] and rnd.random() < 0.75:
+            ks = [k for k, _ in t[1]]
+            return ks[-1] if rnd.random() < 0.4 else rnd.choice(ks)
+        return rnd.choice(KEYS)
+
+    def kidx(r):
+        t = trees.get(r)
+        if t and t[0] == "A" and t[1] and rnd.random() < 0.8:
+            return rnd.choice([len(t[1]) - 1, 0, rnd.randrange(len(t[1]))])
+        return rnd.choice([0, 1, 2, 5])
+
+    def prefer(cands, kinds):
+        c = [i for i in cands if trees.get(i) and trees[i][0] in kinds]
+        return rnd.choice(c) if c and rnd.random() < 0.7 else rnd.choice(cands)
     for step in range(nops):
         if step == arm_at:
             if mode == "single":
@@ -456,17 +494,19 @@ def gen_fault_history(rnd, nops, geo, sess):
         usable = [i for i, s in enumerate(live) if s != "x"]
         bound = [i for i, s in enumerate(live) if s[0] in "RS"]
         docof = {i: int(s[1:]) for i, s in enumerate(live) if s[0] in "RSu" and len(s) > 1}
-        op = rnd.choice(["root", "root", "mem", "memw", "memw", "elem", "elemw", "set", "set", "set", "setm", "setm", "sete", "add", "add", "add", "addv", "toarr", "toobj",
-                         "remi", "remk", "clear", "cleardoc", "shrink"])
+        op = rnd.choice(["root", "root", "mem", "memw", "memw", "elem", "elemw", "set", "set", "set", "setm", "setm", "setm", "sete", "add", "add", "add", "add", "addv", "toarr", "toobj",
+                         "remi", "remi", "remk", "remk", "clear", "cleardoc", "shrink"])
         r = rnd.randrange(10)
         if op == "root":
             do("root %d %d" % (r, rnd.choice([fault_doc, fault_doc, rnd.randrange(3)])))
         elif op in ("mem", "memw") and usable:
-            do("%s %d %d %s" % (op, r, rnd.choice(usable), rnd.choice(KEYS).hex() or "-"))
+            r2 = prefer(usable, "ON")
+            do("%s %d %d %s" % (op, r, r2, (kkey(r2) if rnd.random() < 0.5 else rnd.choice(KEYS)).hex() or "-"))
         elif op in ("elem", "elemw") and usable:
-            do("%s %d %d %d" % (op, r, rnd.choice(usable), rnd.choice([0, 0, 1, 2, 4])))
+            r2 = prefer(usable, "AN")
+            do("%s %d %d %d" % (op, r, r2, kidx(r2) if rnd.random() < 0.5 else rnd.choice([0, 0, 1, 2, 4])))
         elif op in ("set", "add") and usable:
-            r = rnd.choice(usable)
+            r = prefer(usable, "AN") if op == "add" else rnd.choice(usable)
             k = rnd.choice(["null", "bool", "i", "i", "u", "f", "d", "d", "sl", "sc", "sc", "sc", "sv", "raw", "ref", "doc"])
             a = "-"
             if k == "bool":
@@ -501,18 +541,20 @@ def gen_fault_history(rnd, nops, geo, sess):
             do("%s %d %s %s" % (op, r, k, a))
         elif op == "setm" and usable:
             k, a = rnd.choice([("null", "-"), ("i", "42"), ("sc", "7a7a"), ("sl", "1"), ("d", "3fb999999999999a"), ("sc", (b"y" * 33).hex())])
-            do("setm %d %s %s %s" % (rnd.choice(usable), rnd.choice(KEYS).hex() or "-", k, a))
+            do("setm %d %s %s %s" % (prefer(usable, "ON"), rnd.choice(KEYS).hex() or "-", k, a))
         elif op == "sete" and usable:
             k, a = rnd.choice([("null", "-"), ("i", "-7"), ("sc", "7171")])
-            do("sete %d %d %s %s" % (rnd.choice(usable), rnd.choice([0, 1, 3, 6]), k, a))
+            do("sete %d %d %s %s" % (prefer(usable, "AN"), rnd.choice([0, 1, 3, 6]), k, a))
         elif op == "addv" and usable:
-            do("addv %d %d" % (r, rnd.choice(usable)))
+            do("addv %d %d" % (r, prefer(usable, "AN")))
         elif op in ("toarr", "toobj") and usable:
             do("%s %d %d" % (op, r, rnd.choice(usable)))
         elif op == "remi" and usable:
-            do("remi %d %d" % (rnd.choice(usable), rnd.choice([0, 1, 2, 5])))
+            r2 = prefer(usable, "A")
+            do("remi %d %d" % (r2, kidx(r2)))
         elif op == "remk" and usable:
-            do("remk %d %s" % (rnd.choice(usable), rnd.choice(KEYS).hex() or "-"))
+            r2 = prefer(usable, "O")
+            do("remk %d %s" % (r2, kkey(r2).hex() or "-"))
         elif op == "clear" and usable:
             do("clear %d" % rnd.choice(usable))
         elif op == "cleardoc":
@@ -526,7 +568,14 @@ def gen_fault_history(rnd, nops, geo, sess):
         else:
             continue
         live = sess.send("liveq").split(" ", 1)[1].rsplit("|", 1)[0].split()
-        do("obs " + " ".join(str(i) for i, s in enumerate(live) if s != "x"))
+        res = do("obs " + " ".join(str(i) for i, s in enumerate(live) if s != "x"))
+        trees = {}
+        for m in re.finditer(r"r(\d+)=(\S+) z=", res):
+            if m.group(2) != "?":
+                try:
+                    trees[int(m.group(1))] = gens.parse_tree(m.group(2))
+                except Exception:
+                    pass
         if rnd.random() < 0.25:
             c = [i for i, s in enumerate(live) if s != "x"]
             if c:
